@@ -21,6 +21,7 @@ Prod == [
   n0    |-> Atom("Number", "0"),       n1   |-> Atom("Number", "1"),        n2   |-> Atom("Number", "2"),
   n5    |-> Atom("Number", "5"),       nmax |-> Atom("Number", "2147483647"),
   f05   |-> Atom("Number", "0.5"),     f2   |-> Atom("Number", "2.0"),      f15  |-> Atom("Number", "1.5"),
+  f0    |-> Atom("Number", "0.0"),     f1   |-> Atom("Number", "1.0"),      f5   |-> Atom("Number", "5.0"),
   unit  |-> Atom("Unit", "()"),        tru  |-> Atom("True", "$?"),         fls  |-> Atom("False", "$!"),
   syma  |-> Atom("Symbol", ":a"),      symb |-> Atom("Symbol", ":b"),
   strs  |-> Atom("CharList", "\"s\""), stre |-> Atom("CharList", "\"\""),   strab |-> Atom("CharList", "\"ab\""),
@@ -81,7 +82,8 @@ RECURSIVE ChainOk(_)
 ChainOk(t) == IF t.l = "els" THEN (IsCondLike(t.a[1]) \/ (t.a[1].l = "els" /\ IsCondLike(t.a[1].b[1]) /\ ChainOk(t.a[1]))) ELSE TRUE
 RECURSIVE WF(_, _, _)
 \* body: this node is in "body position" (root, { } body, [ ] body, or under a `;` in such a position);
-\* tail: this node is in tail position of a conditional arm inside { }  (where ^~ is meaningful)
+\* tail: this node is in tail position of a conditional arm of an expression body - the program itself or a { } body
+\*       (where ^~ is meaningful: it starts that expression again with a new input value)
 WF(t, body, tail) ==
   LET k == Kind(t) IN
   CASE k = "atom" -> TRUE
@@ -101,7 +103,7 @@ ReapGuarded(t, guarded) ==
   ELSE IF t.l \in {"cond", "condf"} THEN ReapGuarded(t.a[1], guarded) /\ ReapGuarded(t.b[1], TRUE)
   ELSE IF t.l = "nest" THEN ReapGuarded(t.a[1], FALSE)
   ELSE (t.a = <<>> \/ ReapGuarded(t.a[1], guarded)) /\ (t.b = <<>> \/ ReapGuarded(t.b[1], guarded))
-WellFormed(t) == WF(t, TRUE, FALSE) /\ ReapGuarded(t, FALSE)
+WellFormed(t) == WF(t, TRUE, TRUE) /\ ReapGuarded(t, FALSE)
 
 (* ---------------------------------------------------------------- printing with minimal parentheses *)
 \* Which operators are "open" on the right / left edge of the printed form of t decides whether a neighbour
